@@ -462,6 +462,10 @@ func (e *Engine) elemClass(elemT types.Type, path string, l Leaf) string {
 func (e *Engine) noteKind(class string, l Leaf) {
 	if _, ok := e.classKinds[class]; !ok {
 		e.classKinds[class] = l.Kind
+		if l.Kind == LKSlLen || l.Kind == LKSlCap || l.Kind == LKSlOff {
+			// slice headers stored in the heap: lengths, capacities and offsets are non-negative and bounded (type validity)
+			e.classRanges[class] = [2]*big.Int{big.NewInt(0), maxExisting}
+		}
 		if l.Kind == LKInt {
 			if lo, hi, ok := intRange(l.Typ); ok {
 				blo, _ := new(big.Int).SetString(lo, 10)
@@ -500,7 +504,7 @@ func (e *Engine) rangeAxiom(class string, h *Term) *Term {
 // is itself an object that existed at entry (or nil).
 func (e *Engine) initAxiom(st *State, class string, s Sort) {
 	k, ok := e.classKinds[class]
-	if ok && k == LKInt {
+	if ok && (k == LKInt || k == LKSlLen || k == LKSlCap || k == LKSlOff) {
 		if ax := e.rangeAxiom(class, e.tb.Const("H!"+class, s)); ax != nil {
 			e.assumeQuiet(st, ax)
 		}
